@@ -109,6 +109,10 @@ def render_enum(d):
             out.append("    %s%s(%s)," % (pre, name, ty))
             mk = "T::%s(%s)" % (name, val)
             arms.append("T::%s(..) => %d" % (name, i))
+        elif v["shape"] == "empty":
+            out.append("    %s%s {}," % (pre, name))
+            mk = "T::%s {}" % name
+            arms.append("T::%s { .. } => %d" % (name, i))
         else:
             out.append("    %s%s { my_field: String, n: Option<i32> }," % (pre, name))
             mk = "T::%s { my_field: s(), n: if some { Some(7) } else { None } }" % name
@@ -278,12 +282,15 @@ def random_defs(seed, n):
             names = rng.sample(vstyles, nv)
             vs, seen = [], set()
             for i, nm in enumerate(names, 1):
-                sh, pl = rng.choice([("unit", "none"), ("newtype", "str"), ("newtype", "inner"), ("struct", "none")])
+                sh, pl = rng.choice([("unit", "none"), ("newtype", "str"), ("newtype", "inner"), ("struct", "none"), ("empty", "none")])
                 if tg == "internal" and (sh, pl) == ("newtype", "str"):
                     pl = "inner"
                 if tg == "untagged":
                     if (sh, pl) in seen:
                         continue
+                    objs = {("newtype", "inner"), ("struct", "none"), ("empty", "none")}
+                    if ((sh, pl) == ("empty", "none") and seen & objs) or ((sh, pl) in objs and ("empty", "none") in seen):
+                        continue      # an untagged `V {}` reads any object: it only goes with variants that are not objects
                     seen.add((sh, pl))
                 rc = "plain" if rng.random() < 0.15 else "none"
                 vs.append({"name": list(nm), "style": nm, "shape": sh, "payload": pl, "rclass": rc,
